@@ -549,7 +549,10 @@ def direct_elements(els):
         if len(tab[0]) != len(rows):
             fail("C05:table-rows:%s" % el.symbol, "%s.xray.sftable has %d rows, %s.nff has %d data rows" % (el.symbol, len(tab[0]), el.symbol.lower(), len(rows)),
                  input=dict(element=el.symbol))
-        js = sorted(set([0, 1, 2, n - 2] + rng.sample(range(n - 1), min(n - 1, 12)) + [j for j in edges_of(tab)[:6] if j < n - 1]))
+        srt_rows = sorted(rows, key=lambda r: r[0])
+        first_f1 = next((j for j, r in enumerate(srt_rows) if r[1] != -9999.0), 0)     # the first row that carries an f1
+        js = sorted(set([0, 1, 2, n - 2] + [j for j in (first_f1 - 1, first_f1, first_f1 + 1) if 0 <= j < n - 1]
+                        + rng.sample(range(n - 1), min(n - 1, 12)) + [j for j in edges_of(tab)[:6] if j < n - 1]))
         xs = []
         for j in js:
             xs += [E[j], (E[j] + E[j + 1]) / 2, E[j] + 0.25 * (E[j + 1] - E[j])]
@@ -591,6 +594,17 @@ def direct_elements(els):
                     fail("C05:energy-wavelength:%s@%r" % (el.symbol, x),
                          "%s.xray.scattering_factors: energy=%r gives %r, wavelength=%r (= 12.398419/E) gives %r"
                          % (el.symbol, x, a, HC / x, b), input=dict(element=el.symbol, energy=x, wavelength=HC / x))
+
+
+def direct_package_level():
+    """periodictable.xray_sld is the documented front door: same arguments, same result as xsf.xray_sld"""
+    for comp, kw in (("SiO2", dict(density=2.2, energy=8.0)), ("D2O", dict(natural_density=1.0, wavelength=1.5418)),
+                     ("Na{+}Cl{-}", dict(density=2.16, energy=np.array([0.5, 8.0, 17.4]))), ("Fe2O3", dict(density=5.24, energy=0.03))):
+        a = attempt(periodictable.xray_sld, comp, **kw)
+        b = attempt(xsf.xray_sld, comp, **kw)
+        if isinstance(a, Exception) or isinstance(b, Exception) or repr(a) != repr(b):
+            fail("C05:package-level-call", "periodictable.xray_sld(%r, %s) = %r, periodictable.xsf.xray_sld gives %r"
+                 % (comp, ", ".join("%s=%r" % kv for kv in kw.items()), a, b), input=dict(compound=comp))
 
 
 def direct_conversion():
@@ -817,6 +831,7 @@ def main():
     direct_conversion()
     direct_compounds(els + [T.H])
     direct_f0()
+    direct_package_level()
 
     json.dump(dict(cases=cases, meta=meta, direct_fails=direct_fails,
                    stats=dict(elements=[e.symbol for e in els], tables=len(TAB), element_stream=st_el,
